@@ -20,7 +20,10 @@ nxscope.py (`NxscopeHandler`), dev.py (`Device`) and intf/dummy.py (`DummyDev`):
              with the locks held, and whether it is bounded (`get`: a timeout that is a number on
              every resolved path; `put`: the queue was created by `queue.Queue()` without maxsize).
   threads    for every `ThreadCommon(self.<body>, name=..)` created in an `__init__`: the locks the
-             body and everything it calls can take, the queues it puts on / gets from.
+             body and everything it calls can take, the queues it puts on / gets from, the queues it can
+             wait on WITHOUT a timeout, the threads it can join.
+  joins      every `ThreadCommon.thread_stop()` (-> `Thread.join()` without timeout) reachable from every
+             entry, with the locks held there and the library thread that is joined.
   exEnable / exDiv   the events of `_nxslib_channels_enable` / `_nxslib_channels_div` in source
              order (read requested, read acknowledged, send, wait for ACK, write acknowledged,
              write resync flag, update device copy) with their enclosing `with` block.
@@ -52,6 +55,7 @@ PROTECTED = {("CommHandler", "_channels"): "chanCfg", ("NxscopeHandler", "_sub_q
              ("Device", "_channels"): "devChans", ("DummyDev", "_dummydev"): "dummyChans"}
 QUEUES = {("CommHandler", "_q"): "resp", ("CommHandler", "_q_stream"): "stream",
           ("DummyDev", "_qwrite"): "devWrite", ("DummyDev", "_qread"): "devRead"}
+TIDS = {"recv": "recv", "stream": "stream", "dummy_stream": "dummyStream", "dummy_recv": "dummyRecv"}
 FIELDS = {"en_now": "enNow", "en_new": "enNew", "div_now": "divNow", "div_new": "divNew",
           "en_resync": "enResync", "div_resync": "divResync"}
 MUTATORS = {"append", "remove", "pop", "clear", "extend", "insert", "sort", "reverse", "update", "add", "discard",
@@ -124,7 +128,12 @@ class Src:
                             raise Missing(f"unknown queue attribute {cname}.{tgt.attr}")
                         kind = ("queue", q)
                     elif fname == "ThreadCommon":
-                        kind = ("thread",)
+                        nm = [kw.value for kw in val.keywords if kw.arg == "name"]
+                        if not (nm and isinstance(nm[0], ast.Constant) and isinstance(nm[0].value, str)):
+                            raise Missing(f"{cname}.{tgt.attr} = ThreadCommon(…, name=<literal>) expected (line {val.lineno})")
+                        if nm[0].value not in TIDS:
+                            raise Missing(f"unknown library thread `{nm[0].value}` ({cname}.{tgt.attr}, line {val.lineno})")
+                        kind = ("thread", nm[0].value)
                     elif fname == "Event":
                         kind = ("event",)
                     elif fname in ("Lock",):
@@ -212,6 +221,7 @@ class Analysis:
         self.accesses = []
         self.acqs = []
         self.blocking = []
+        self.joins = []
 
     # -- resolution -----------------------------------------------------------------------------------
     def prop_kind(self, cname, pname, depth=0):
@@ -314,6 +324,10 @@ class Analysis:
     def rec_block(self, node, ctx, kind, queue, bounded, what):
         self.blocking.append(dict(entry=ctx.entry, line=node.lineno, col=node.col_offset, held=ctx.held, sect=ctx.sect,
                                   kind=kind, queue=queue, bounded=bounded, via=".".join(ctx.via + (what,))))
+
+    def rec_join(self, node, ctx, target, what):
+        self.joins.append(dict(entry=ctx.entry, line=node.lineno, col=node.col_offset, held=ctx.held, target=target,
+                               via=".".join(ctx.via + (what,))))
 
     # -- walking -------------------------------------------------------------------------------------
     def run_entry(self, cname, mname, thread=False):
@@ -565,8 +579,13 @@ class Analysis:
             self.rec_block(node, ctx, "link", "resp", True, "_intf." + name)
             return
         if k is not None and k[0] == "thread":
-            if ctx.held and not ctx.aux:
-                raise Missing(f"thread control {src}() under a lock in {ctx.cur[0]}.{ctx.cur[1]} line {node.lineno}")
+            if name == "thread_stop":
+                # ThreadCommon.thread_stop -> Thread.join() without timeout: a wait-for edge to that thread,
+                # recorded with the locks held (the table's `joinsLockFree` fact judges it)
+                self.rec_join(node, ctx, TIDS[k[1]], src)
+                return
+            if name in ("join", "wait") or (ctx.held and not ctx.aux):
+                raise Missing(f"thread control {src}() in {ctx.cur[0]}.{ctx.cur[1]} line {node.lineno}")
             return
         if k is not None and k[0] == "event":
             if name == "wait" and ctx.held and not ctx.aux:
@@ -692,8 +711,18 @@ def analyse(repo):
                 prod.append(b["queue"])
             if b["kind"] == "get" and b["queue"] not in cons:
                 cons.append(b["queue"])
+        forever = []
+        for b in t.blocking:
+            if b["kind"] == "get" and not b["bounded"] and b["queue"] not in forever:
+                forever.append(b["queue"])
+        joined = []
+        for j in t.joins:
+            if j["target"] not in joined:
+                joined.append(j["target"])
+        if tname not in TIDS:
+            raise Missing(f"unknown library thread `{tname}` ({cname}.{mname})")
         threads.append(dict(name=tname, cls=cname, meth=mname, locks=locks, produces=prod, consumes=cons,
-                            acqs=t.acqs, blocking=t.blocking))
+                            acqs=t.acqs, blocking=t.blocking, tid=TIDS[tname], forever=forever, joins=joined))
     if not any(t["name"] == "recv" for t in threads) or not any(t["name"] == "stream" for t in threads):
         raise Missing("thread bodies `recv` (CommHandler) and `stream` (NxscopeHandler)")
     return s, a, threads
@@ -746,12 +775,12 @@ def gen_locks(repo):
     except (Missing, SyntaxError, FileNotFoundError, KeyError) as e:
         err = e
     names = [("accesses", "List Access"), ("acqs", "List Acq"), ("blocking", "List Blocking"), ("threads", "List ThreadBody"),
-             ("exEnable", "List ExEv"), ("exDiv", "List ExEv")]
+             ("exEnable", "List ExEv"), ("exDiv", "List ExEv"), ("joins", "List JoinSite")]
     if err is not None:
         for n, t in names:
             o.raw(f"def {n} : {t} := {site(str(err))}  -- {err}")
             o.facts[n] = None
-        o.raw("def table : Table := ⟨accesses, acqs, blocking, threads, exEnable, exDiv⟩")
+        o.raw("def table : Table := ⟨accesses, acqs, blocking, threads, exEnable, exDiv, joins⟩")
         return o
 
     def dedup(rows):
@@ -778,15 +807,18 @@ def gen_locks(repo):
                  f".{r['kind']}, .{r['queue']}, {'true' if r['bounded'] else 'false'}, {lean_str(r['via'])}⟩"
                  for t in threads for r in t["blocking"]])
     thr = [f"  ⟨{lean_str(t['name'])}, {lean_str(t['cls'])}, {lean_str(t['meth'])}, {lean_locks(t['locks'])}, "
-           f"{lean_locks(t['produces'])}, {lean_locks(t['consumes'])}⟩" for t in threads]
+           f"{lean_locks(t['produces'])}, {lean_locks(t['consumes'])}, .{t['tid']}, {lean_locks(t['forever'])}, "
+           f"{lean_locks(t['joins'])}⟩" for t in threads]
     exe = [f"  ⟨.{k}, {ln}, {sect}, {lean_locks(held)}⟩"
            for ln, col, k, sect, held in exchange(a, "_nxslib_channels_enable", "enNew", "enNow", "enResync", "en_channels_update")]
     exd = [f"  ⟨.{k}, {ln}, {sect}, {lean_locks(held)}⟩"
            for ln, col, k, sect, held in exchange(a, "_nxslib_channels_div", "divNew", "divNow", "divResync", "div_channels_update")]
-    for (n, t), rows in zip(names, [acc, acqs, blk, thr, exe, exd]):
+    jn = dedup([f"  ⟨{lean_str(r['entry'][0])}, {lean_str(r['entry'][1])}, {r['line']}, {lean_locks(r['held'])}, .{r['target']}, "
+                f"{lean_str(r['via'])}⟩" for r in a.joins if r["entry"][1] != "__init__"])
+    for (n, t), rows in zip(names, [acc, acqs, blk, thr, exe, exd, jn]):
         o.raw(f"def {n} : {t} := [\n" + ",\n".join(rows) + "\n]" if rows else f"def {n} : {t} := []")
         o.facts[n] = len(rows)
-    o.raw("def table : Table := ⟨accesses, acqs, blocking, threads, exEnable, exDiv⟩")
+    o.raw("def table : Table := ⟨accesses, acqs, blocking, threads, exEnable, exDiv, joins⟩")
     return o
 
 
